@@ -6,3 +6,4 @@ INVARIANT InsideIsTE
 INVARIANT CruiseFactorOnlyInCruise
 INVARIANT FuelFlowPositive
 CHECK_DEADLOCK FALSE
+INVARIANT NegativeAlsoWithoutDescending
